@@ -98,7 +98,13 @@ class WorkerState:
             elif name == "try_array":
                 h = _hist()
                 arr = np.ones(2)
-                fn = {"add": lambda: h + arr, "mul": lambda: h * arr, "div": lambda: h / arr, "iadd": lambda: h.__iadd__(arr), "list": lambda: h + [1, 1]}[op[1]]
+                zeros = np.zeros(2)
+                fn = {"add": lambda: h + arr, "mul": lambda: h * arr, "div": lambda: h / arr, "iadd": lambda: h.__iadd__(arr), "list": lambda: h + [1, 1],
+                      # reflected forms and operands that look like a neutral element
+                      "radd": lambda: arr + h, "rmul": lambda: arr * h, "radd_list": lambda: [1, 1] + h, "radd_zeros": lambda: zeros + h,
+                      "radd_zero_list": lambda: [0, 0] + h, "radd_zero_tuple": lambda: (0.0, 0.0) + h, "add_zeros": lambda: h + zeros,
+                      "mul_ones_list": lambda: h * [1, 1], "imul": lambda: h.__imul__(arr), "idiv": lambda: h.__itruediv__(arr),
+                      "sub": lambda: h - zeros, "isub": lambda: h.__isub__(zeros)}[op[1]]
                 try:
                     r = fn()
                     ok = True
@@ -317,6 +323,10 @@ def check_schedule(case, ctx: Ctx):
         ctx.label("interleaved_different_values")
 
 
+ARRAY_FORMS = ["add", "mul", "div", "iadd", "list", "radd", "rmul", "radd_list", "radd_zeros", "radd_zero_list", "radd_zero_tuple", "add_zeros",
+               "mul_ones_list", "imul", "idiv", "sub", "isub"]
+
+
 @st.composite
 def program(draw, max_len):
     out = []
@@ -344,7 +354,7 @@ def program(draw, max_len):
         elif c == "observe":
             out.append(["observe"])
         elif c == "try_array":
-            out.append(["try_array", draw(st.sampled_from(["add", "mul", "div", "iadd", "list"]))])
+            out.append(["try_array", draw(st.sampled_from(ARRAY_FORMS))])
         else:
             out.append(["try_negative", draw(st.sampled_from(["construct", "scale", "setter"]))])
     return out
@@ -385,25 +395,63 @@ print(config.free_arithmetics, a, n, seen[0])
 """
 
 
+_PROGRAM_SCRIPT = _SCRIPT + r"""
+import json, sys
+from pbt.props.c19 import WorkerState, process_default
+case = json.loads(sys.argv[1])
+out = []
+def run():
+    w = WorkerState(0, case["program"], process_default())
+    while not w.done():
+        w.step()
+    w.finish()
+    out.append(w.violation)
+if case["in_thread"]:
+    t = threading.Thread(target=run); t.start(); t.join()
+else:
+    run()
+v = out[0]
+print("PROGRAM", json.dumps(None if v is None else [v.kind, v.detail]))
+"""
+
+
 def check_env(case, ctx: Ctx):
     val = ENV_VALUES[case["i"] % len(ENV_VALUES)]
     env = dict(os.environ)
     env.pop("PHYST_FREE_ARITHMETICS", None)
     if val is not None:
         env["PHYST_FREE_ARITHMETICS"] = val
-    r = subprocess.run([sys.executable, "-c", _SCRIPT], capture_output=True, text=True, env=env, timeout=120)
+    import json
+
+    r = subprocess.run([sys.executable, "-c", _PROGRAM_SCRIPT, json.dumps({"program": case.get("program") or [], "in_thread": bool(case.get("in_thread"))})],
+                       capture_output=True, text=True, env=env, timeout=120)
     if r.returncode != 0:
         raise Violation("env_default_crash", f"PHYST_FREE_ARITHMETICS={val!r}: {r.stderr[-300:]}")
-    got = r.stdout.split()
+    got = r.stdout.splitlines()[0].split()
     want = val == "1"
     ctx.label(f"env_{val!r}")
     ctx.nt()
     require(got == [str(want)] * 4, "env_default", f"PHYST_FREE_ARITHMETICS={val!r}: (value, array accepted, negative accepted, thread value) = {got}, expected all {want}")
+    if case.get("program"):
+        # the same interpreter + model as the schedule sub-check, started from the process default:
+        # leaving the outermost context must bring back the *environment's* value
+        line = [ln for ln in r.stdout.splitlines() if ln.startswith("PROGRAM ")]
+        if r.returncode != 0 or not line:
+            raise HarnessError(f"env program runner failed: {r.stderr[-400:]}")
+        v = json.loads(line[0][len("PROGRAM "):])
+        ctx.label("program_in_thread" if case["in_thread"] else "program_main_thread")
+        if v is not None:
+            raise Violation("env_" + v[0], f"PHYST_FREE_ARITHMETICS={val!r}: {v[1]}")
+
+
+@st.composite
+def env_cases(draw, tier="quick"):
+    return {"i": draw(st.integers(0, len(ENV_VALUES) - 1)), "program": draw(program(8)), "in_thread": draw(st.booleans())}
 
 
 FINDINGS = []
 
 SUBS = [
     Sub("schedule", lambda tier: schedules(tier), check_schedule, quick=2400, thorough=20000),
-    Sub("env_default", lambda tier: st.builds(lambda i: {"i": i}, st.integers(0, len(ENV_VALUES) - 1)), check_env, quick=28, thorough=14),
+    Sub("env_default", lambda tier: env_cases(tier), check_env, quick=40, thorough=40),
 ]
